@@ -71,6 +71,18 @@ def _gen_select(rng):
     k = rng.randint(2, 5)
     fams = rng.sample(FAMS, k)
     cands = [_cand(rng, f, 'P%d' % i) for i, f in enumerate(fams)]
+    if rng.random() < 0.15:
+        # the same family twice, configured differently (two kernel bandwidths, two truncation
+        # ranges): candidates are entries of a list, not names of classes
+        fam = rng.choice(['kde', 'truncated'])
+        opts = ([{'bw_method': 0.05}, {'bw_method': 3.0}] if fam == 'kde'
+                else [{'minimum': -1e6, 'maximum': 1e6}, {'minimum': -1e3, 'maximum': 40.0}])
+        if rng.random() < 0.5:
+            opts = opts[::-1]
+        cands = [{'fam': fam, 'form': 'configured', 'tag': 'Q%d' % i, 'opts': o}
+                 for i, o in enumerate(opts)] + cands[:rng.randint(0, 2)]
+        cands = [c for i, c in enumerate(cands)
+                 if c['form'] == 'configured' or c['fam'] != fam]
     run = {'kind': 'select', 'cands': cands,
            'data': zoo.rand_uni_dataspec(rng, 50, 400, allow_constant=False),
            'state': rng.randrange(2**31), 'ops': []}
@@ -123,8 +135,16 @@ def _gen_gmv(rng):
         # a selecting prototype whose candidates include failing wrappers
         cfg['cands'] = [_cand(rng, f, 'U%d' % i, wrap_p=0.5) for i, f in
                         enumerate(rng.sample(['gaussian', 'uniform', 'kde', 'gamma'], 3))]
-    return {'kind': 'gmv', 'table': table, 'config': cfg, 'state': rng.randrange(2**31),
-            'ops': []}
+        if rng.random() < 0.5:
+            cfg['selection_sample_size'] = rng.choice([15, 30])
+            cfg['cands'] = [dict(c, form='class') if c['form'] == 'wrap' else c
+                            for c in cfg['cands']]
+            cfg['cands'] = [c for c in cfg['cands'] if c['fam'] != 'gaussian'] or cfg['cands']
+    run = {'kind': 'gmv', 'table': table, 'config': cfg, 'state': rng.randrange(2**31),
+           'ops': []}
+    # the training frame as a caller really has it: rows filtered, index shifted or labelled
+    run['index'] = rng.choice(['range', 'range', 'filtered', 'shifted', 'labels'])
+    return run
 
 
 def generate(rng, tier, idx):
@@ -187,6 +207,10 @@ def _make_cand(c):
         return zoo.load_class(name), None
     if c['form'] == 'name':
         return name, None
+    if c['form'] == 'configured':
+        inst = zoo.load_class(name)(**c['opts'])
+        inst._copsim_tag = c['tag']
+        return inst, None
     if c['form'] == 'instance':
         if c['fam'] == 'truncated':
             # a prototype built with positional constructor arguments
@@ -199,14 +223,22 @@ def _make_cand(c):
     return proto, proto._shared
 
 
-def _ident(instance):
+def _ident(instance, cands=None):
     if isinstance(instance, FailingMarginal):
         return instance.tag
+    if cands:
+        # a configured duplicate is recognised by its options (get_instance() clones them)
+        for c in cands:
+            if c['form'] == 'configured' and type(instance).__name__ == zoo.short(gmvlib.FAM[c['fam']]):
+                opts = c['opts']
+                if all(getattr(instance, {'minimum': 'min', 'maximum': 'max'}.get(k, k), None) == v
+                       for k, v in opts.items()):
+                    return c['tag']
     return type(instance).__name__
 
 
 def _cand_ident(c):
-    if c['form'] == 'wrap':
+    if c['form'] in ('wrap', 'configured'):
         return c['tag']
     return zoo.short(gmvlib.FAM[c['fam']])
 
@@ -215,7 +247,7 @@ def _plain_instance(c):
     """A fresh, fault-free instance configured like candidate ``c``."""
     if isinstance(c, str):
         return zoo.load_class(gmvlib.FAM[c])()
-    if c['form'] == 'instance':
+    if c['form'] in ('instance', 'configured'):
         return _make_cand(dict(c))[0]
     return zoo.load_class(gmvlib.FAM[c['fam']])()
 
@@ -307,7 +339,7 @@ def _run_select(ctx, run):
                         % (outcome_class(out), len(ks), best), **cond)
         ctx.event('select', pattern, outcome_class(out))
         return pattern, 'raised'
-    winner = _ident(uni._instance)
+    winner = _ident(uni._instance, run['cands'])
     all_ids = [_cand_ident(c) for c in run['cands']]
     if winner not in all_ids:
         ctx.violate('b_selected_family_is_a_candidate', SUBJ_UNI,
@@ -373,6 +405,14 @@ def _run_gmv(ctx, run):
     from copulas.multivariate import GaussianMultivariate
     from copulas.univariate import Univariate
     df, _R = zoo.gen_table(run['table'])
+    if run.get('index') == 'filtered':
+        df = df.iloc[::2]
+    elif run.get('index') == 'shifted':
+        df.index = df.index + 1000
+    elif run.get('index') == 'labels':
+        df.index = ['row%d' % i for i in range(len(df))]
+    if run.get('index', 'range') != 'range':
+        ctx.probes['training_frame_with_non_default_index'] += 1
     cfg = run['config']
     d = df.shape[1]
     protos = {}
@@ -391,10 +431,13 @@ def _run_gmv(ctx, run):
             protos[col] = (obj, shared, c)
     else:
         objs = [_make_cand(c) for c in cfg['cands']]
+        kw_ = {}
+        if cfg.get('selection_sample_size'):
+            kw_['selection_sample_size'] = cfg['selection_sample_size']
         if run['state'] % 2:
-            dist = Univariate([o for o, _ in objs])        # positional prototype argument
+            dist = Univariate([o for o, _ in objs], **kw_)   # positional prototype argument
         else:
-            dist = Univariate(candidates=[o for o, _ in objs])
+            dist = Univariate(candidates=[o for o, _ in objs], **kw_)
         protos['U'] = (dist, None, None)
         for (o, sh), c in zip(objs, cfg['cands']):
             protos[c['tag']] = (o, sh, c)
@@ -539,6 +582,10 @@ def _expected_type(cfg, col, j, protos):
     # selecting prototype: a member of its candidate set, or the Gaussian fallback if the
     # selection cannot produce a fitted model (depends on shared counters across columns)
     names = {zoo.short(gmvlib.FAM[c['fam']]) for c in cfg['cands']}
+    if all(c['form'] != 'wrap' for c in cfg['cands']):
+        # no injected failure can hit the selection: a Gaussian here would be the fallback of
+        # a selection that - with these fault-free candidates - can be fitted
+        return ('member', names)
     return ('member', names | {'GaussianUnivariate'})
 
 
